@@ -120,17 +120,66 @@ def canary_check(unit, seed, tier, repo):
     ug = UnitGen(repo, os.path.join(VERIF, 'units'))
     g = ug.generate(unit)
     fns = sorted(f for f, i in g.fns.items() if i['mode'] == 'verify')
-    if not fns:
+    lemmas = []
+    for i, ln in enumerate(g.lines):
+        m = re.match(r'\s*(?:pub )?proof fn (\w+)', ln)
+        if m and g.map[i].get('kind') == 'framework' and not m.group(1).startswith('axiom_'):
+            lemmas.append(m.group(1))
+    cands = fns + ['lemma:' + l for l in lemmas]
+    if not cands:
         return dict(unit=unit, planted=0, caught=0, ok=True, fns=[])
-    chosen = fns if tier == 'thorough' else [fns[seed % len(fns)]]
-    r = unitrun.run_unit(unit, repo=repo, canary=set(chosen), suffix='_canary', max_rounds=1,
-                         rlimit=config.UNIT_RLIMIT.get(unit, 40))
+    if tier == 'thorough':
+        chosen = cands
+    else:
+        chosen = [cands[seed % len(cands)]]
+        if fns and lemmas:
+            chosen = [fns[seed % len(fns)], 'lemma:' + lemmas[seed % len(lemmas)]]
+    chosen_lemmas = set(c[6:] for c in chosen if c.startswith('lemma:'))
+
+    def plant(gg):
+        i = 0
+        while i < len(gg.lines):
+            m = re.match(r'\s*(?:pub )?proof fn (\w+)', gg.lines[i])
+            if m and m.group(1) in chosen_lemmas and gg.map[i].get('kind') == 'framework':
+                j = i
+                while j < len(gg.lines) and gg.lines[j].strip() != '{':
+                    j += 1
+                if j < len(gg.lines):
+                    gg.lines.insert(j + 1, '    assert(false); //@lemma:%s.canary' % m.group(1))
+                    gg.map.insert(j + 1, dict(kind='clause', fn='lemma:' + m.group(1), clause='lemma:%s.canary' % m.group(1), tags=[], role='canary'))
+                    i = j + 1
+            i += 1
+    r = unitrun.run_unit(unit, repo=repo, canary=set(c for c in chosen if not c.startswith('lemma:')), suffix='_canary', max_rounds=1,
+                         rlimit=config.UNIT_RLIMIT.get(unit, 40), post=plant)
     caught = sorted(set(f['fn'] for f in r.failures if f['kind'] == 'canary'))
     return dict(unit=unit, planted=len(chosen), caught=len(caught), ok=set(caught) == set(chosen),
                 fns=chosen, missed=sorted(set(chosen) - set(caught)))
 
 
+ALL_UNITS = ['conn', 'lemmas', 'request', 'client', 'response']
+
+
+def inventory():
+    """Static inventory: which unit proves which function's contract (committed as units/inventory.json)."""
+    from vf.gen import UnitGen
+    proved = {}
+    assumed = {}
+    for u in ALL_UNITS:
+        g = UnitGen(REPO, os.path.join(VERIF, 'units')).generate(u)
+        for fid, info in g.fns.items():
+            (proved if info['mode'] == 'verify' else assumed).setdefault(info['path'], {})
+            (proved if info['mode'] == 'verify' else assumed)[info['path']][u] = info['contract_sha']
+    inv = dict(proved=proved, assumed=assumed, assumed_only=sorted(
+        p for p in assumed if not any(sha in proved.get(p, {}).values() for sha in assumed[p].values())))
+    with open(os.path.join(VERIF, 'units', 'inventory.json'), 'w') as f:
+        json.dump(inv, f, indent=1, sort_keys=True)
+    print('functions under contract (verified): %d; assumed everywhere: %s' % (len(proved), inv['assumed_only']))
+    return 0
+
+
 def main():
+    if len(sys.argv) > 1 and sys.argv[1] == '--inventory':
+        return inventory()
     ap = argparse.ArgumentParser()
     ap.add_argument('prop')
     ap.add_argument('--tier', default=os.environ.get('VERIF_TIER', 'quick'))
@@ -178,6 +227,8 @@ def main():
     solver_ms = {}
     dropped = []
     minimums = json.load(open(MINIMUMS)) if os.path.exists(MINIMUMS) else {}
+    invp = os.path.join(VERIF, 'units', 'inventory.json')
+    inv = json.load(open(invp)) if os.path.exists(invp) else {}
     for u in pc['units']:
         r = results[u]
         for msg in r.undecided:
@@ -185,6 +236,18 @@ def main():
         if r.g is None:
             continue
         for t in scan_trusted(r.g):
+            m = re.search(r'\[([\w.]+)\]$', t)
+            if m and m.group(1) in r.g.fns and r.g.fns[m.group(1)]['mode'] != 'verify':
+                path = r.g.fns[m.group(1)]['path']
+                sha = r.g.fns[m.group(1)]['contract_sha']
+                where = [x for x, h in inv.get('proved', {}).get(path, {}).items() if x != u and h == sha]
+                t += ' -- contract assumed in unit %s, %s' % (u, ('same contract PROVED in unit ' + ','.join(where)) if where else 'NOT proved anywhere (trusted)')
+            elif t.startswith('external_body') and t.split()[1] in [i2['path'].split('::')[-1] for i2 in r.g.fns.values() if i2['mode'] != 'verify']:
+                cand = [i2 for i2 in r.g.fns.values() if i2['mode'] != 'verify' and i2['path'].split('::')[-1] == t.split()[1]]
+                path = cand[0]['path']
+                sha = cand[0]['contract_sha']
+                where = [x for x, h in inv.get('proved', {}).get(path, {}).items() if x != u and h == sha]
+                t += ' [%s] -- contract assumed in unit %s, %s' % (path, u, ('same contract PROVED in unit ' + ','.join(where)) if where else 'NOT proved anywhere (trusted)')
             if t not in trusted:
                 trusted.append(t)
         by_fn = {}
@@ -229,7 +292,7 @@ def main():
     # allow-list of trusted constructs
     allow = set(l.strip() for l in open(ALLOW) if l.strip() and not l.startswith('#')) if os.path.exists(ALLOW) else None
     if allow is not None:
-        new = [t for t in trusted if t not in allow]
+        new = [t for t in trusted if t.split(' -- ')[0].split(' [')[0] not in set(a.split(' [')[0] for a in allow) and not t.startswith('kani:')]
         if new:
             undecided.append('trusted-base scan: constructs not on the committed allow-list: %s' % new)
 
